@@ -9,10 +9,14 @@ mod alpha;
 mod c01;
 mod c02;
 mod c03;
+mod c04;
 mod c05;
 mod scenes;
 mod c06;
 mod c10;
+mod c11;
+mod bfs;
+mod c12;
 mod c13;
 mod c14;
 mod cat;
@@ -133,6 +137,7 @@ fn run_check(id: &str, tier: &str) -> i32 {
         eprintln!("unknown check {id}");
         return 2;
     };
+    harness::install_panic_hook(false);
     let exe = std::env::current_exe().map(|p| p.to_string_lossy().to_string()).unwrap_or_else(|_| "mc".into());
     let budget = Duration::from_secs(if thorough { check.budget_s.1 } else { check.budget_s.0 });
     let findings = match load_findings() {
